@@ -65,6 +65,10 @@ func c10(w *core.World, r *core.Report) {
 	// computes is the cluster's: the slot-function rules of C11 are obligations
 	// of the slot filter too.
 	c11(w, r)
+	r.Rule("R10.17", "command names are folded to lower case over the whole alphabet before they are looked up", 1)
+	ruleCommandNameLowercased(w, r)
+	r.Rule("R10.16", "merging configured slot ranges is a union: both bounds extended independently", 2)
+	ruleRangeMergeIsUnion(w, r)
 }
 
 // ---------------------------------------------------------------- R10.1
